@@ -237,8 +237,16 @@ impl Ctx {
     pub fn quick(&self) -> bool {
         self.opts.tier == Tier::Quick
     }
+    /// True in the dev-profile configurations - and in every configuration of a
+    /// cross-configuration run (C08), where all four builds must enumerate the
+    /// same (dev-sized) space.
     pub fn dev_profile(&self) -> bool {
-        self.opts.cfg.starts_with('d')
+        self.opts.cfg.starts_with('d') || self.uniform()
+    }
+    /// Cross-configuration mode: spaces and transcripts must not depend on the
+    /// build configuration or on addresses.
+    pub fn uniform(&self) -> bool {
+        self.opts.extra("uniform").is_some()
     }
     pub fn verbose(&self) -> bool {
         self.opts.verbose
